@@ -217,6 +217,10 @@ func statusProperty(prop string) func(t *rapid.T) {
 				s.addReceipt(pi, idx, drawTyp())
 			},
 			"transfer": func(t *rapid.T) { s.addTransfer() },
+			"poorNext": func(t *rapid.T) {
+				s.poorNext = true
+				s.logf("the next IBTP is sent by an account without funds")
+			},
 			// the ordinary shape of real traffic: several requests with the same timeout setting in one block, their
 			// receipts together in a later block before the expiry, then the chain passes the common expiry height
 			"burst": func(t *rapid.T) {
